@@ -33,13 +33,13 @@ theorem infoByte_toNat (ver : Nat) (start : Bool) (h : ver ≤ 127) :
   have : ver * 2 + (if start then 1 else 0) < 256 := by split <;> omega
   simp; omega
 
-structure Decoded (s : Bytes) (ns : Bytes) (ver : Nat) (start : Bool) : Prop where
+structure ShareDecoded (s : Bytes) (ns : Bytes) (ver : Nat) (start : Bool) : Prop where
   ns : Share.ns s = ns
   version : Share.version s = ver
   start : Share.isSequenceStart s = start
 
 theorem decoded_of_cons (ns : Bytes) (ver : Nat) (start : Bool) (rest : Bytes) (hns : ns.length = 29) (hv : ver ≤ 127) :
-    Decoded (ns ++ infoByte ver start :: rest) ns ver start := by
+    ShareDecoded (ns ++ infoByte ver start :: rest) ns ver start := by
   refine ⟨ns_of_cons _ _ _ hns, ?_, ?_⟩
   · simp only [Share.version, info_of_cons _ _ _ hns, infoByte_toNat ver start hv]
     cases start <;> simp <;> omega
